@@ -71,7 +71,9 @@ class DynamicSchedulingFromPlan(Scheduling):
         self.alternate = 0
         temporary_resources = cluster.get_available_resources()
         max_allocations_iteration = len(temporary_resources)
-        for task in sorted(task_pool, key=lambda x: x.est):
+        # Ties on est are broken by id: task_pool is a set whose iteration
+        # order changes with the interpreter's hash seed
+        for task in sorted(task_pool, key=lambda x: (x.est, str(x.id))):
             if len(allocations) >= max_allocations_iteration:
                 break
             if (
